@@ -17,6 +17,31 @@ CLAIMED = {
         technique='automata equivalence on compiler-extracted DFAs + MIR dataflow rules (static analysis)',
         engine='A+C',
     ),
+    'C07': dict(
+        category='other',
+        text='Claimed in part. Decides, as a statement about the code of every eq (hence for all pairs): the projections each hand-written == compares are exactly the '
+             'documented key (parts / {is_absolute, normalized_segments} / as_pct_str / derived raw bytes) and are applied symmetrically to both operands, so == is the '
+             'kernel of a key function (reflexive, symmetric, transitive given the component relations); the *Parts field types put Option exactly where presence counts; '
+             'totality: every panic entry reachable from any eq in the instance graph is discharged by an automata lemma over the compiled languages (TRIPLETS) or a named reason, '
+             'and slice panics in the accessor layer by the C02/C03 obligations.',
+        design_ref='DESIGN.md §4 C07, Engine C (C-key, C-panic), Engine A',
+        note='NOT decided: "exactly when" for all pairs (run-time semantics of dot-segment normalisation), termination of iterator loops. Relies on hand model of pct-str Bytes (iv/pct.py). '
+             'Genuine defect F7 (== panicked on %80, equated %C0%AF with %2F) was repaired in /repo by a fix: commit; the check fails with witnesses on the pre-fix tree.',
+        technique='key-projection extraction from MIR + panic-site discharge on the instance graph + automata lemmas (static analysis)',
+        engine='C+A',
+    ),
+    'C08': dict(
+        category='other',
+        text='Structural decision for every comparable type: eq, cmp and hash use the same key projection (views to other library types resolved), applied symmetrically; '
+             'partial_cmp is Some(cmp); the 57 owned forwarders call the borrowed impl; *Parts derive all five traits; and for each of the 29 Borrow impls between library types '
+             'the hash SHAPE (sequence of values fed to the hasher, Option adding a discriminant, recursively) of A equals that of the borrowed B — inequality is a definite '
+             'contract breach for any real hasher.',
+        design_ref='DESIGN.md §4 C08, Engine C (C-key)',
+        note='Coherence is structural (same key), not a value-level proof that cmp==Equal ⇔ eq. Genuine defects F4 (Uri/Iri vs reference hash) and F8 (DataUrlBuf derived over derived data) were repaired by fix: commits; '
+             'the check reports all 7 pairs on the pre-fix tree.',
+        technique='key-projection and hash-shape extraction from MIR / impl tables (static analysis)',
+        engine='C',
+    ),
     'C13': dict(
         category='proof',
         text='Exact language inclusions on the compiled automata: every URI-family type ⊆ its IRI twin, full ⊆ reference types, URI family ⊆ ASCII '
